@@ -573,5 +573,53 @@ def rule_pure(ctx):
                         lambda i: True, 8)
 
 
+def rule_rebuild(ctx):
+    """A loop that decides from a *child's* cached legs whether to delete and re-add
+    the parent (``restore_ind``) is right only bottom-up: the child must already have
+    been rebuilt when its parent is examined.  The loop must therefore iterate
+    ``traverse()`` (children before parents); the insertion order of the
+    ``children`` dict is bottom-up only for a tree fresh from ``from_path``."""
+    r = RuleResult("C04-REBUILD", "dependent intermediates are rebuilt bottom-up", 1)
+    from .c02 import tree_funcs
+    for f in tree_funcs(ctx, ctx.tier == "thorough"):
+        for lp in [n for n in walk_local(f.node) if isinstance(n, ast.For)]:
+            calls = [x for st in lp.body for x in ast.walk(st) if isinstance(x, ast.Call)
+                     and isinstance(x.func, ast.Attribute)]
+            names = {c.func.attr for c in calls}
+            if not ({"_remove_node", "contract_nodes_pair"} <= names):
+                continue
+            # does the decision read a cached quantity of a loop-target (child) variable?
+            targets = {t.id for t in ast.walk(lp.target) if isinstance(t, ast.Name)}
+            reads_child = any(c.func.attr in ("get_legs", "get_involved", "get_size") and c.args
+                              and isinstance(c.args[0], ast.Name) and c.args[0].id in targets
+                              for c in calls)
+            if not reads_child:
+                continue
+            key = ctx.key(f, "C04-REBUILD")
+            it = lp.iter
+            while isinstance(it, ast.Call) and dotted(it.func) in ("tuple", "list", "iter") and it.args:
+                it = it.args[0]
+            bottom_up = isinstance(it, ast.Call) and isinstance(it.func, ast.Attribute) and \
+                it.func.attr in ("traverse", "_traverse_dfs", "_traverse_ordered")
+            if bottom_up:
+                r.ok(key, C.loc(f, lp), "iterates traverse(): children are rebuilt before their parents")
+            else:
+                r.violation(key, C.loc(f, lp), f"the rebuild loop iterates `{C.unparse(lp.iter, 50)}`, "
+                            "which is not a children-first order once nodes have been re-inserted "
+                            "(reconfigure, anneal, an earlier restore): a parent examined before its "
+                            "child reads the child's stale legs and is skipped, leaving its legs, "
+                            "size, flops and the running totals un-restored")
+    return r
+
+
+def rule_multpair(ctx):
+    """Shared with C06-MULT: the slice count enters every extensive total."""
+    from .c06 import rule_multpair as src
+
+    return C.reuse_rule(ctx, src, "C06-MULT", "C04-MULTPAIR",
+                        "slice-count factor recorded on removal is the one removed on restore",
+                        lambda i: True, 2)
+
+
 RULES = [rule_copy, rule_alias, rule_track, rule_staleread, rule_pre, rule_presource, rule_whole,
-         rule_presurv, rule_pure]
+         rule_presurv, rule_pure, rule_rebuild, rule_multpair]
